@@ -3,6 +3,7 @@ package props
 import (
 	"context"
 	"fmt"
+	"io"
 	"net/http"
 	"net/http/httptest"
 	"os"
@@ -24,7 +25,14 @@ type c11Instr struct {
 	WL    []string `json:"wl,omitempty"` // whitelist for delall
 	Code  int      `json:"code,omitempty"`
 	Via   int      `json:"via,omitempty"` // which wrapper layer the call goes through (0 = outermost)
+	How   string   `json:"how,omitempty"` // write only: "" Write, "copy" io.Copy from a plain reader, "copyn" io.CopyN, "wstr" io.WriteString, "fprint" fmt.Fprint
 }
+
+// plainReader hides every optional interface of the reader (WriteTo above all), so
+// io.Copy has to choose between the destination's ReadFrom and a Write loop.
+type plainReader struct{ r io.Reader }
+
+func (p plainReader) Read(b []byte) (int, error) { return p.r.Read(b) }
 
 type c11Case struct {
 	Wrappers []string          `json:"wrappers"` // outermost first: "U" UnderlyingResponseWriter, "W" Unwrap, "UW" both
@@ -145,7 +153,18 @@ func c11Run(c c11Case) *Violation {
 			case "wh":
 				lw.WriteHeader(in.Code)
 			case "write":
-				_, _ = lw.Write([]byte(in.Val))
+				switch in.How {
+				case "copy":
+					_, _ = io.Copy(lw, plainReader{strings.NewReader(in.Val)})
+				case "copyn":
+					_, _ = io.CopyN(lw, strings.NewReader(in.Val), int64(len(in.Val)))
+				case "wstr":
+					_, _ = io.WriteString(lw, in.Val)
+				case "fprint":
+					_, _ = fmt.Fprint(lw, in.Val)
+				default:
+					_, _ = lw.Write([]byte(in.Val))
+				}
 			case "read":
 				var got string
 				var ok bool
@@ -354,6 +373,10 @@ func c11Gen(t *rapid.T) c11Case {
 			in.Op, in.Code = "wh", rapid.SampledFrom([]int{200, 204, 302, 307, 404, 500, 200, 302, 100, 102, 103}).Draw(t, "code")
 		case "write":
 			in.Op, in.Val = "write", rapid.StringMatching(`[a-z]{0,5}`).Draw(t, "body")
+			if in.Val != "" && rapid.IntRange(0, 9).Draw(t, "how") < 3 {
+				// the ways handlers really produce a body: streaming a file / upstream response, string helpers
+				in.How = rapid.SampledFrom([]string{"copy", "copy", "copyn", "wstr", "fprint"}).Draw(t, "howkind")
+			}
 		case "read":
 			in.Op, in.Store = "read", rapid.SampledFrom([]string{"session", "cookie"}).Draw(t, "store")
 			in.Key = rapid.SampledFrom(c11Keys).Draw(t, "key")
